@@ -4,6 +4,7 @@ import (
 	"bytes"
 	"context"
 	"crypto/sha256"
+	"database/sql"
 	"encoding/hex"
 	"errors"
 	"fmt"
@@ -55,6 +56,11 @@ type Mut struct {
 	// file) | one (1-byte file) | sqlite (valid database) | dir | symlink (to an existing file) | fifo |
 	// dangling (symlink to a missing target: os.Stat says "not exist" — observed, not part of the oracle)
 	PreKind string `json:"pre_kind,omitempty"`
+	// foreign-wal: <output> is absent but a VALID SQLite WAL sits at <output>-wal (optionally with its -shm):
+	// "foreign" = the un-checkpointed WAL of another database with the same page size, "own" = the WAL of an
+	// earlier incarnation of this very output (restored at TXID 1, then written to).
+	WalKind string `json:"wal_kind,omitempty"` // foreign | own
+	WithShm bool   `json:"with_shm,omitempty"`
 }
 
 type RestoreCase struct {
@@ -205,6 +211,8 @@ type restoreObs struct {
 	Err           string
 	Fired         int
 	Log           []string
+	Logical       string
+	WantLogical   string
 }
 
 func (o restoreObs) canon() string {
@@ -249,7 +257,8 @@ type workerReq struct {
 	Plan   []planID `json:"plan"` // pristine plan
 	Mut    Mut      `json:"mut"`
 	OutDir string   `json:"out_dir"`
-	Plant  string   `json:"plant,omitempty"` // stale-tmp: file holding the bytes to plant at <output>.tmp
+	Plant  string   `json:"plant,omitempty"`  // stale-tmp: file holding the bytes to plant at <output>.tmp; foreign-wal: the -wal
+	Plant2 string   `json:"plant2,omitempty"` // foreign-wal: the -shm
 }
 type planID struct {
 	Level    int `json:"level"`
@@ -264,6 +273,7 @@ type workerResp struct {
 	// pre-existing object before and after the call
 	PreBefore string `json:"pre_before,omitempty"`
 	PreAfter  string `json:"pre_after,omitempty"`
+	Logical   string `json:"logical,omitempty"` // foreign-wal: what SQLite sees when it opens (a copy of) the restored output
 }
 
 // doRestore runs the real Restore for one mutation (inside a worker process).
@@ -274,6 +284,41 @@ func doRestore(q workerReq) workerResp {
 	m := q.Mut
 	if strings.HasPrefix(m.Kind, "disk-") {
 		return doDiskRestore(q, out)
+	}
+	if m.Kind == "foreign-wal" {
+		w, err := os.ReadFile(q.Plant)
+		if err != nil {
+			return workerResp{Err: "HARNESS: " + err.Error()}
+		}
+		if err := os.WriteFile(out+"-wal", w, 0o644); err != nil {
+			return workerResp{Err: "HARNESS: " + err.Error()}
+		}
+		if m.WithShm {
+			if b, err := os.ReadFile(q.Plant2); err == nil {
+				os.WriteFile(out+"-shm", b, 0o644)
+			}
+		}
+		r := litestream.NewReplicaWithClient(nil, file.NewReplicaClient(q.Dir))
+		opt := litestream.NewRestoreOptions()
+		opt.OutputPath = out
+		opt.IntegrityCheck = litestream.IntegrityCheckMode(m.Integrity)
+		rerr := r.Restore(context.Background(), opt)
+		resp := workerResp{OK: rerr == nil}
+		if rerr != nil {
+			resp.Err = rerr.Error()
+			return resp
+		}
+		// what the application sees when it opens the restored database: probe a COPY (database + whatever
+		// sidecars are next to it) so that the restore output itself stays as Restore left it
+		probe := filepath.Join(q.OutDir, "probe")
+		os.MkdirAll(probe, 0o755)
+		for _, sfx := range []string{"", "-wal", "-shm"} {
+			if b, err := os.ReadFile(out + sfx); err == nil {
+				os.WriteFile(filepath.Join(probe, "restored.db"+sfx), b, 0o644)
+			}
+		}
+		resp.Logical = logicalDump(filepath.Join(probe, "restored.db"))
+		return resp
 	}
 	if m.Kind == "stale-tmp" {
 		b, err := os.ReadFile(q.Plant)
@@ -430,7 +475,7 @@ func inspect(m Mut, outDir string, want []byte, resp *workerResp, crash string) 
 	if resp == nil {
 		o = restoreObs{Res: "CRASH", Err: crash}
 	} else {
-		o = restoreObs{Res: "ok", Fired: resp.Fired, Log: resp.Log, Err: resp.Err}
+		o = restoreObs{Res: "ok", Fired: resp.Fired, Log: resp.Log, Err: resp.Err, Logical: resp.Logical}
 		if !resp.OK {
 			o.Res = restoreErrKind(errors.New(resp.Err))
 		}
@@ -492,6 +537,17 @@ func restoreOracle(m Mut, o restoreObs) string {
 		}
 		if o.Out != "pre" {
 			return "pre-existing output path was modified: " + o.Out
+		}
+		return ""
+	}
+	if m.Kind == "foreign-wal" {
+		switch {
+		case o.Res != "ok":
+			return fmt.Sprintf("Restore failed (%s) although the replica is intact: a pre-existing valid <output>-wal (%s) was picked up by the post-restore integrity check", o.Res, m.WalKind)
+		case o.Out != "complete":
+			return "Restore returned nil but the output file differs from the reference image after a pre-existing <output>-wal (" + m.WalKind + ") was present: " + o.Out
+		case o.Logical != o.WantLogical:
+			return fmt.Sprintf("Restore returned nil but SQLite opens the restored database with different content: a pre-existing valid <output>-wal (%s) is replayed into it (sees {%s}, replica state is {%s})", m.WalKind, o.Logical, o.WantLogical)
 		}
 		return ""
 	}
@@ -742,4 +798,44 @@ func identity(p string) string {
 		}
 	}
 	return d
+}
+
+// logicalDump opens a database file with SQLite (as an application would) and summarises what it sees.
+func logicalDump(path string) string {
+	d, err := sql.Open("sqlite", path)
+	if err != nil {
+		return "open error: " + err.Error()
+	}
+	defer d.Close()
+	d.SetMaxOpenConns(1)
+	var ic string
+	if err := d.QueryRow("PRAGMA integrity_check").Scan(&ic); err != nil {
+		return "integrity_check error: " + err.Error()
+	}
+	rows, err := d.Query("SELECT name FROM sqlite_master ORDER BY name")
+	if err != nil {
+		return "schema error: " + err.Error()
+	}
+	var names []string
+	for rows.Next() {
+		var n string
+		rows.Scan(&n)
+		names = append(names, n)
+	}
+	rows.Close()
+	h := sha256.New()
+	n := 0
+	if rows, err = d.Query("SELECT id, hex(v) FROM t ORDER BY id"); err == nil {
+		for rows.Next() {
+			var id int
+			var v string
+			rows.Scan(&id, &v)
+			fmt.Fprintf(h, "%d=%s;", id, v)
+			n++
+		}
+		rows.Close()
+	} else {
+		return fmt.Sprintf("integrity=%s schema=%v t: %v", firstLine(ic), names, err)
+	}
+	return fmt.Sprintf("integrity=%s schema=%v t=%d rows %s", firstLine(ic), names, n, hex.EncodeToString(h.Sum(nil)[:6]))
 }
